@@ -32,3 +32,181 @@ Proof.
   - intros g G1 G2. exact (region_backward n saved cur Ws Wc g G1 G2).
 Qed.
 Print Assumptions C08_region_correct.
+
+(* torch's _check_shard_metadata_pair_overlap (the guard before every copy) is exact: boxes it rejects share no
+   coordinate (skipping them loses nothing) and, for positive sizes, boxes it accepts do share one. *)
+Theorem C08_overlap_test_exact : forall (n : nat) (b1 b2 : box), wfb n b1 -> wfb n b2 ->
+  (overlaps b1 b2 = false -> forall g, ~ (in_box b1 g = true /\ in_box b2 g = true)) /\
+  ((forall i, (i < n)%nat -> 0 < nth i (bsz b1) 0) -> (forall i, (i < n)%nat -> 0 < nth i (bsz b2) 0) ->
+   overlaps b1 b2 = true -> exists g, in_box b1 g = true /\ in_box b2 g = true).
+Proof.
+  intros n b1 b2 W1 W2. split.
+  - intros Ov g [G1 G2]. exact (overlaps_false_disjoint n b1 b2 g W1 W2 Ov G1 G2).
+  - exact (overlaps_true_intersect n b1 b2 W1 W2).
+Qed.
+Print Assumptions C08_overlap_test_exact.
+
+(* Saved shards pairwise disjoint, each holding the global tensor G restricted to its box; a destination shard d
+   with ARBITRARY initial contents.  After the load, at every local coordinate c of d (global g = off_d + c):
+   - if some saved shard s contains g: the value is G g, it was taken from s at g - off_s, and s is the ONLY saved
+     shard containing g (uniqueness of the source follows from pairwise disjointness);
+   - if no saved shard contains g: the value is the initial one (untouched).
+   Any element type E (all dtypes at once), any number of dimensions, any boxes. *)
+Theorem C08_reshard_correct : forall (E : Type) (n : nat) (G : coord -> E) (shards : list (sshard E)) (d : dshard E),
+  (forall s, In s shards -> wfb n (s_box s)) -> wfb n (d_box d) ->
+  shards_disjoint shards ->
+  (forall s, In s shards -> forall c, in_local (s_box s) c = true -> s_data s c = G (vadd (boff (s_box s)) c)) ->
+  forall c, in_local (d_box d) c = true ->
+    let g := vadd (boff (d_box d)) c in
+    (forall s, In s shards -> in_box (s_box s) g = true ->
+       load_dst shards d c = G g /\
+       load_dst shards d c = s_data s (vsub g (boff (s_box s))) /\
+       (forall s', In s' shards -> in_box (s_box s') g = true -> s' = s)) /\
+    ((forall s, In s shards -> in_box (s_box s) g = false) -> load_dst shards d c = d_data d c).
+Proof. intros E n G shards d. exact (reshard_correct n G shards d). Qed.
+Print Assumptions C08_reshard_correct.
+
+(* Dense destination = one box at the origin, of ANY shape (same as or different from the saved global shape). *)
+Theorem C08_reshard_dense : forall (E : Type) (n : nat) (G : coord -> E) (shards : list (sshard E))
+                                   (shape : list Z) (I : tensor E),
+  (forall s, In s shards -> wfb n (s_box s)) -> length shape = n ->
+  shards_disjoint shards ->
+  (forall s, In s shards -> forall c, in_local (s_box s) c = true -> s_data s c = G (vadd (boff (s_box s)) c)) ->
+  forall c, in_local (dense_box shape) c = true ->
+    ((exists s, In s shards /\ in_box (s_box s) c = true) -> load_dst shards (mkD (dense_box shape) I) c = G c) /\
+    ((forall s, In s shards -> in_box (s_box s) c = false) -> load_dst shards (mkD (dense_box shape) I) c = I c).
+Proof. intros E n G shards shape I. exact (reshard_dense n G shards shape I). Qed.
+Print Assumptions C08_reshard_dense.
+
+(* prepare_read, given distinct (location, byte_range) per saved shard: the read plan is in entry order without
+   repetition (strictly increasing indices); it lists exactly the saved shards that overlap some destination
+   shard; and the consumer of each request carries exactly that shard's own regions, in destination order. *)
+Theorem C08_each_needed_shard_read_once : forall (E : Type) (shards : list (sshard E)) (dboxes : list box),
+  NoDup (map s_key shards) ->
+  Sorted.StronglySorted Z.lt (read_plan shards dboxes) /\
+  (forall j, In j (read_plan shards dboxes) <->
+     exists s, 0 <= j /\ nth_error shards (Z.to_nat j) = Some s /\
+               exists db, In db dboxes /\ overlaps db (s_box s) = true) /\
+  (forall j s rs, In (j, s, rs) (read_reqs_full shards dboxes) ->
+     nth_error shards (Z.to_nat j) = Some s /\ rs = own_regions (s_box s) dboxes).
+Proof. intros E shards dboxes. exact (read_plan_once shards dboxes). Qed.
+Print Assumptions C08_each_needed_shard_read_once.
+
+(* The execution as coded (regions grouped per (location, byte_range), one consumer per read request applying its
+   region list to the destination tensors) computes exactly [load] (every overlapping pair copied once). *)
+Theorem C08_grouped_execution_is_load : forall (E : Type) (shards : list (sshard E)) (dsts : list (dshard E)),
+  NoDup (map s_key shards) -> load_grouped shards dsts = load shards dsts.
+Proof. intros E shards dsts. exact (load_grouped_eq_load shards dsts). Qed.
+Print Assumptions C08_grouped_execution_is_load.
+
+(* subdivide_shard along any dim with any chunk length >= 1 (hence any max-shard-size threshold and element size):
+   the pieces are well-formed, pairwise disjoint, and their union is exactly the shard; each piece (a narrowed
+   view) holds the shard's elements at the shifted coordinates. *)
+Theorem C08_subdivide_preserves_disjoint_cover : forall (n : nat) (b : box) (dim : nat) (esize maxb : Z),
+  wfb n b -> (dim < n)%nat ->
+  let ps := map snd (subdivide b dim esize maxb) in
+  ForallOrdPairs box_disjoint ps /\
+  (forall p, In p ps -> wfb n p) /\
+  (forall g, in_box b g = true <-> exists p, In p ps /\ in_box p g = true).
+Proof.
+  intros n b dim esize maxb W Hd.
+  exact (subdivide_disjoint_cover n b dim (chunk_length b dim esize maxb) W Hd (chunk_length_pos b dim esize maxb)).
+Qed.
+Print Assumptions C08_subdivide_preserves_disjoint_cover.
+
+Theorem C08_subdivided_piece_holds_restriction : forall (E : Type) (n : nat) (G : coord -> E) (t : tensor E)
+                                                        (b : box) (dim : nat) (cl i : Z) (c : coord),
+  wfb n b -> (dim < n)%nat -> length c = n ->
+  (forall x, length x = n -> t x = G (vadd (boff b) x)) ->
+  narrow t dim (i * cl) c = G (vadd (boff (piece cl b dim i)) c).
+Proof. intros E n G t b dim cl i c. exact (write_piece_holds n G t b dim cl i c). Qed.
+Print Assumptions C08_subdivided_piece_holds_restriction.
+
+(* The result of the load does not depend on the order of the saved shard list (nor, therefore, on the order in
+   which the read requests complete) when the saved shards are pairwise disjoint - for arbitrary saved contents.
+   In particular sorting by offsets in _get_merged_sharded_tensor_entries (any placement of shards on ranks) is
+   immaterial. *)
+Theorem C08_merge_is_order_independent : forall (E : Type) (n : nat) (shards shards' : list (sshard E)) (d : dshard E),
+  (forall s, In s shards -> wfb n (s_box s)) -> wfb n (d_box d) ->
+  shards_disjoint shards -> Permutation shards shards' ->
+  forall x, load_dst shards d x = load_dst shards' d x.
+Proof. intros E n shards shards' d. exact (load_order_independent n shards shards' d). Qed.
+Print Assumptions C08_merge_is_order_independent.
+
+Theorem C08_merged_entry_is_permutation : forall (E : Type) (ranks : list (list (sshard E))),
+  Permutation (concat ranks) (merge_shards ranks).
+Proof. intros E ranks. exact (merge_shards_perm ranks). Qed.
+Print Assumptions C08_merged_entry_is_permutation.
+
+(* _get_global_shape = per-dim max(0, max over the shards of offset + size). *)
+Theorem C08_global_shape_is_corner : forall (n : nat) (bs : list box),
+  bs <> [] -> (forall b, In b bs -> wfb n b) ->
+  exists gs, global_shape bs = Some gs /\ length gs = n /\
+    forall i, (i < n)%nat ->
+      0 <= nth i gs 0 /\
+      (forall b, In b bs -> nth i (boff b) 0 + nth i (bsz b) 0 <= nth i gs 0) /\
+      (nth i gs 0 = 0 \/ exists b, In b bs /\ nth i gs 0 = nth i (boff b) 0 + nth i (bsz b) 0).
+Proof. exact global_shape_is_corner. Qed.
+Print Assumptions C08_global_shape_is_corner.
+
+(* ShardedTensorEntry.get_tensor_shape (used for obj_out=None) scans for a dominating corner.  For shards that lie
+   inside [0, shape) and cover its last element - in particular for every partition of [0, shape), in any order -
+   both implementations return shape. *)
+Theorem C08_shapes_agree_on_partitions : forall (n : nat) (bs : list box) (shape : list Z),
+  length shape = n -> (forall i, 0 <= nth i shape 0) -> (forall b, In b bs -> wfb n b) ->
+  (forall b, In b bs -> forall i, (i < n)%nat -> nth i (boff b) 0 + nth i (bsz b) 0 <= nth i shape 0) ->
+  (exists b, In b bs /\ in_box b (map (fun e => e - 1) shape) = true) ->
+  tensor_shape bs = Some shape /\ global_shape bs = Some shape.
+Proof.
+  intros n bs shape Ls Pos W Inside Cov.
+  destruct (partition_corner n bs shape Ls W Inside Cov) as (bstar & Hin & Ec & D).
+  rewrite <- Ec. apply (shapes_agree n bs bstar Hin D). rewrite Ec. exact Pos.
+Qed.
+Print Assumptions C08_shapes_agree_on_partitions.
+
+(* get_tensor_shape is NOT the corner in general (no dominating shard: e.g. a per-rank, incomplete shard list). *)
+Example C08_tensor_shape_needs_domination :
+  tensor_shape [mkBox [0; 0] [2; 1]; mkBox [0; 1] [1; 2]] = Some [2; 1] /\
+  global_shape [mkBox [0; 0] [2; 1]; mkBox [0; 1] [1; 2]] = Some [2; 3].
+Proof. vm_compute. split; reflexivity. Qed.
+
+(* ---------------------------------------------------------------- non-vacuity *)
+(* a 5x7 tensor saved as an uneven 2x3 grid (rows 2+3, columns 3+1+3): the hypotheses of C08_reshard_correct hold *)
+Example C08_example_hypotheses :
+  (forall s, In s ex_saved -> wfb 2 (s_box s)) /\ shards_disjoint ex_saved /\ NoDup (map s_key ex_saved) /\
+  (forall s, In s ex_saved -> forall c, in_local (s_box s) c = true -> s_data s c = ex_G (vadd (boff (s_box s)) c)).
+Proof.
+  assert (forall b, In b (map s_box ex_saved) -> wfb 2 b) as W
+    by (apply wfb_b_sound; vm_compute; reflexivity).
+  split; [intros s Hs; apply W; apply in_map; exact Hs|]. split; [|split].
+  - apply shards_disjoint_of_boxes. apply (disjointb_sound 2); [exact W|vm_compute; reflexivity].
+  - vm_compute. repeat constructor; cbn; intuition discriminate.
+  - intros s Hs c _. vm_compute in Hs. repeat (destruct Hs as [<-|Hs]; [reflexivity|]). destruct Hs.
+Qed.
+
+(* ... loaded into a 3x2 grid (rows 1+3+1, columns 5+2): every destination shard ends up holding G restricted *)
+Example C08_example_grid :
+  map (fun dt => rs_to_list (bsz (d_box (fst dt))) (snd dt)) (combine ex_dsts (load ex_saved ex_dsts)) =
+  map (fun b => map (fun c => ex_G (vadd (boff b) c)) (coords (bsz b))) ex_dst_boxes.
+Proof. vm_compute. reflexivity. Qed.
+
+(* ... and into a dense 4x9 tensor: G on the 4x7 overlap, the initial contents on columns 7 and 8 *)
+Example C08_example_dense :
+  rs_to_list [4; 9] (load_dst ex_saved ex_dense) =
+  map (fun c => if nth 1 c 0 <? 7 then ex_G c else ex_I c) (coords [4; 9]).
+Proof. vm_compute. reflexivity. Qed.
+
+(* the grouped execution and the read plan on the same example: all six saved shards are needed by the 3x2 grid;
+   a dense 1x3 destination needs only the first *)
+Example C08_example_plan :
+  read_plan ex_saved ex_dst_boxes = [0; 1; 2; 3; 4; 5] /\
+  read_plan ex_saved [dense_box [1; 3]] = [0] /\
+  map (fun dt => rs_to_list (bsz (d_box (fst dt))) (snd dt)) (combine ex_dsts (load_grouped ex_saved ex_dsts)) =
+  map (fun dt => rs_to_list (bsz (d_box (fst dt))) (snd dt)) (combine ex_dsts (load ex_saved ex_dsts)).
+Proof. vm_compute. repeat split; reflexivity. Qed.
+
+(* subdivision of the 3x3 saved shard at (2,4) with 4-byte elements and a 20-byte threshold: rows of 12 bytes, one per piece *)
+Example C08_example_subdivide :
+  map snd (subdivide (mkBox [2; 4] [3; 3]) 0 4 20) =
+  [mkBox [2; 4] [1; 3]; mkBox [3; 4] [1; 3]; mkBox [4; 4] [1; 3]].
+Proof. vm_compute. reflexivity. Qed.
